@@ -12,25 +12,33 @@ CHECKS = {
          'Every step of generated edit histories on the real code is validated by TLC against PfstTrace/EditLaws: Sync '
          '(positions-and-structure id of the live tree = that of ast.parse(source)) and RootIdentity; the container '
          'operators used by the trace spec are model-checked in ContainersMC. Trace validation within stated bounds, not '
-         'exhaustive over all programs.',
-         'TLA+ trace validation of real edit histories (TLC) + model-checked container spec'),
+         'exhaustive over all programs. Drivers: random histories (incl. put_docstr / put_line_comment / par / unpar / '
+         'f-string field edits as misc events), the TLC-generated request table (ContainersGen) replayed on 43 container '
+         'templates and argument layouts, and a systematic deletion sweep over every node x field of the corpus.',
+         'TLA+ trace validation of real edit histories (TLC) + model-checked container spec + TLC-generated request table '
+         'replayed into pfst'),
  'C02': ('model_checking', '4-C02',
          'Edit histories are executed in lock-step on trees that differ only in the read-only queries made before each '
-         'edit; after every step ~80 public queries on every node are answered by each edited tree and by a tree built '
+         'edit (plus systematic layout-only edit sweeps with every cache warm and f-string field edits); after every step '
+         '~100 public queries on every node (f-string internals included) are answered by each edited tree and by a tree built '
          'from scratch from its source, and TLC validates ObsEq, Links, ViewsFollow, HistoryIndependent, RootIdentity '
          '(ObsLaws.tla). Trace validation within the stated bounds.',
          'TLA+ trace validation of lock-step observation histories (edited tree vs fresh tree)'),
  'C03': ('model_checking', '4-C03',
          'ContainersMC.tla is model-checked exhaustively within its constants (every entry point = Python list '
          'semantics); every recorded edit is validated by TLC: SliceLaw (field = old[:s]+new+old[t:] computed by the '
-         'spec from raw bounds), NothingElse (OnlyChangedAt), OracleAgree (pure-AST surgery), CarriedOutNotRefused.',
+         'spec from raw bounds; virtual fields incl. arguments._all as <<arg, default, star kind>> triples), NothingElse '
+         '(OnlyChangedAt), OracleAgree (pure-AST surgery), CarriedOutNotRefused; the TLC-generated request table is replayed '
+         'on 43 container templates x layouts and every node x field of the corpus gets its deletions.',
          'TLC model checking of Containers spec + TLA+ trace validation of recorded edits'),
  'C05': ('model_checking', '4-C05',
          'Trace validation against an explicit TLA+ definition of every parse mode (ParseModes.tla: tight embeddings '
          'written from the grammar, sub-tree path, shift, wrapper-escape rule; table totality and shift/acceptance '
          'algebra model-checked exhaustively on a small grid) over ~14k (quick) / ~80k (thorough) real pfst parse calls: '
          'every corpus node text x 14 layouts x every admitting mode, cross-mode, guessing modes, delimiter-derived '
-         'escapes, the repository invalid inputs and token mutants. Within these generated inputs, not all texts.',
+         'escapes, the repository invalid inputs and token mutants, plus spec-side case tables (ParseCases.tla: element '
+         'shapes x multi-line layouts x multi-line strings, 352 closer-filler-opener wrapper-escape bridges x 146 modes). '
+         'Within these generated inputs, not all texts.',
          'TLC emits the mode table (G); CPython parse + tokenize of the spec embeddings are logged as oracle facts and '
          'ParseTrace.tla judges TextKept, TreeIsSubtree.struct/pos, KindAdmitted, RejectedOnlyIfInvalid, '
          'AcceptedOnlyIfValid per call (V)'),
@@ -38,7 +46,8 @@ CHECKS = {
          'Registry.tla (enter/success/fail brackets with a fault after every step) is model-checked for Quiescent/'
          'Balanced/NextEditEnabled; histories mixing failing and valid requests on the real code are validated by TLC: '
          'AtomicOnRaise (tree, text, source parse unchanged), RegistryQuiescent, NextEditAfterRaise (same result as on a '
-         'freshly built tree).',
+         'freshly built tree); a systematic sweep makes every (mostly refused) deletion request on every node x field of the '
+         'corpus.',
          'TLC model checking of Registry spec + TLA+ trace validation of failing/valid edit histories'),
  'C20': ('model_checking', '4-C20',
          'Option store and thread isolation are specified in TLA+ (Options.tla, Threads.tla with Registry.tla) and '
@@ -96,7 +105,8 @@ CHECKS = {
          'Model checking of an explicit TLA+ specification of raw source edits (Raw/RawLaws with a flat-Python oracle defined '
          'in TLA+ and cross-checked against ast.parse, exhaustive within MaxFlat<=4/MaxRepl<=2) plus trace validation by TLC of '
          'every recorded put_src(reparse)/raw put/reparse() call against a whole-file ast.parse (text splice recomputed in '
-         'TLA+, 7 named clauses, spec-computed edit classes); genuine statement-local-reparse defects are recorded by '
+         'TLA+, 7 named clauses, spec-computed edit classes; TLC also enumerates a block-header edit table RawHdrGen and an '
+         'inline simple->compound table RawInlGen with programs built as code points); genuine defects are recorded by '
          '(clause, class) in known_findings.d/C10.json.',
          'TLC model checking (RawMC) + TLC-generated exhaustive case table replayed into pfst (RawGen) + TLC trace validation '
          'of corpus histories (RawTrace); oracle ast.parse/tokenize only'),
